@@ -198,10 +198,25 @@ def counts_by_path(log, infos_by_id):
     return c
 
 
-def choose_edits(rng, order, visited, k):
+def later_twins(order):
+    """List members that have a structurally equal (==) sibling *before* them in the same list: with positions
+    disabled `{ a b a }` holds two equal Field nodes; an edit aimed at the later one must not land on the earlier."""
+    out = set()
+    for inf in order:
+        if inf.index is None or inf.parent is None or not inf.index:
+            continue
+        lst = getattr(inf.parent.node, inf.attr)
+        if any(lst[j] == inf.node and lst[j] is not inf.node for j in range(inf.index)):
+            out.add(id(inf.node))
+    return out
+
+
+def choose_edits(rng, order, visited, k, prefer=None):
     """Non-nested random set of visited nodes with actions."""
     cands = [inf for inf in order if id(inf.node) in visited and inf.parent is not None and not is_name(inf)]
     rng.shuffle(cands)
+    if prefer:
+        cands.sort(key=lambda inf: id(inf.node) not in prefer)
     chosen = []
     for inf in cands:
         if len(chosen) >= k:
@@ -211,6 +226,8 @@ def choose_edits(rng, order, visited, k):
         acts = ["replace", "skip"]
         if inf.index is not None:
             acts += ["delete", "delete"]
+        if prefer and id(inf.node) in prefer:
+            acts = ["replace", "delete"]
         chosen.append((inf, rng.choice(acts)))
     return chosen
 
@@ -237,7 +254,7 @@ def apply_reference_edits(root2, edits, repl_by_path):
             del lst[[i for i, x in enumerate(lst) if x is target][0]]
 
 
-def run_edit_case(ctx, rng, parse_fn, text, flags, base_cls, chain=0, witness=None):
+def run_edit_case(ctx, rng, parse_fn, text, flags, base_cls, chain=0, witness=None, twins=False):
     """One edit case on fresh parses. chain=0: single visitor; chain=k: the editing visitor sits at a
     random position of a ChainedVisitor of k recorders."""
     from py_gql.lang.visitor import ASTVisitor, ChainedVisitor
@@ -253,9 +270,12 @@ def run_edit_case(ctx, rng, parse_fn, text, flags, base_cls, chain=0, witness=No
     t1 = parse_fn(text, **flags)
     infos1, order1 = build_index(t1)
     visited1 = set(id(inf.node) for inf in order1 if inf.path in visited_paths)
-    edits = choose_edits(rng, order1, visited1, rng.randint(1, 3))
+    prefer = later_twins(order1) & visited1 if twins else None
+    edits = choose_edits(rng, order1, visited1, rng.randint(1, 3), prefer)
     if not edits:
         return
+    if prefer and any(id(inf.node) in prefer for inf, _a in edits):
+        ctx.count("edit_cases_aimed_at_the_later_of_two_equal_siblings")
     plan, repl_by_path = {}, {}
     for inf, act in edits:
         if act == "replace":
@@ -651,10 +671,41 @@ def run(ctx):
             ctx.mark_inconclusive("generated document rejected: %r" % text[:100])
             continue
         check_document(ctx, rng, parse, text, flags, start)
+    twin_cases(ctx, rng, parse)
+    ctx.require("edit_cases_aimed_at_the_later_of_two_equal_siblings", 20)
     ctx.require("noop_visits", 20)
     ctx.require("edit_cases_ok", 20)
     ctx.require("chained_visits_ok", 20)
     ctx.require("nodes_checked", 500)
+
+
+TWIN_TEXTS = [
+    ("{ a b a }", {}),
+    ("{ a { x y x } b a { x y x } c }", {}),
+    ("{ f(x: 1, y: 2, x: 1) }", {}),
+    ("{ f(x: [1, 2, 1, 3, 2]) g(o: {a: 1, b: 2, a: 1}) }", {}),
+    ("query Q($a: Int = 1, $b: Int, $a: Int = 1) @d @e @d { a @d @e @d ...F ...G ...F ... on T { a } x ... on T { a } }", {}),
+    ("fragment F on T { a } fragment G on T { b } fragment F on T { a } { a } { b } { a }", {}),
+    ("enum E { A B A } union U = A | B | A type T implements I & J & I { f(x: Int, y: Int, x: Int): Int g: Int f(x: Int, y: Int, x: Int): Int }",
+     {"allow_type_system": True}),
+    ("input I { a: Int = 1 b: [Int] = [1, 1] a: Int = 1 } directive @d(a: Int, b: Int, a: Int) on FIELD | QUERY | FIELD "
+     "schema { query: Q mutation: M query: Q } scalar S @a @b @a extend type T { a: Int b: Int a: Int }",
+     {"allow_type_system": True}),
+    ("fragment F($a: Int, $b: Int, $a: Int) on T { a b a }", {"experimental_fragment_variables": True}),
+]
+
+
+def twin_cases(ctx, rng, parse_fn):
+    """Documents parsed without positions hold siblings that are equal (==) without being the same node."""
+    from py_gql.lang.visitor import ASTVisitor, DispatchingVisitor
+
+    for text, flags in TWIN_TEXTS:
+        flags = dict(flags, no_location=True)
+        for k in range(ctx.n(4)):
+            chain = 0 if k % 4 != 3 else rng.randint(2, 3)
+            base = DispatchingVisitor if k % 2 else ASTVisitor
+            run_edit_case(ctx, rng, parse_fn, text, flags, base, chain=chain,
+                          witness={"class": "equal siblings, positions disabled"}, twins=True)
 
 
 def replay(ctx, key, w):
